@@ -1,5 +1,6 @@
 """C05 Older format versions are upgraded faithfully and idempotently."""
 import glob
+import copy
 import json
 import os
 
@@ -53,8 +54,23 @@ def upgrade_cycle(kind, cls, old_text, snap_fn, want, type_name, dump=None):
     check(d is None, "reload-differs[%s]" % kind, lambda: "%s: object re-read from the upgraded file differs: %s" % (kind, d))
     second = must("second-dump[%s]" % kind, dump, again)
     check(second == first, "conversion-not-idempotent[%s]" % kind, "%s: second dump differs from the first" % kind)
+    if type_name != "productmd.treeinfo":
+        # one already parsed document feeding two objects: the document stays the caller's, both readers see the same
+        parsed = json.loads(old_text)
+        before = copy.deepcopy(parsed)
+        for n in (1, 2):
+            reader = cls()
+            must("deserialize-parsed-document[%s]" % kind, reader.deserialize, parsed)
+            check(parsed == before, "caller-document-modified[%s]" % kind, lambda: "%s: the parsed document handed to deserialize() was modified: %s" % (kind, diff(before, parsed)))
+            d = diff(want, must("snapshot", snap_fn, reader))
+            check(d is None, "upgrade-differs-from-description[%s]" % kind, lambda: "%s: reader #%d of the same parsed document: %s" % (kind, n, d))
     poison(obj), poison(again)
     return first
+
+
+OTHER_RPMS = {"header": {"type": "productmd.rpms", "version": "1.2"},
+              "payload": {"compose": {"id": "Other-1-20200101.0", "type": "production", "date": "20200101", "respin": 0},
+                          "rpms": {"Other": {"x86_64": {"o-0:1-1.src": {"o-0:1-1.x86_64": {"path": "o/o.rpm", "sigkey": None, "category": "binary"}}}}}}}
 
 
 def composeinfo_case(case):
@@ -116,6 +132,17 @@ def rpms_case(case):
     first = upgrade_cycle("rpms " + version, Rpms, json.dumps(doc), snap, want, "productmd.rpms")
     payload = json.loads(first)["payload"]
     check("manifest" not in payload and diff(want["rpms"], payload["rpms"]) is None, "upgraded-document-differs", "rpms %s: upgraded file payload differs from the prediction" % version)
+    # a manifest object that already served another load: the older document replaces its content, and what the caller took
+    # from the first load stays what it was
+    used = Rpms()
+    must("load-other-document", used.loads, json.dumps(OTHER_RPMS))
+    held = used.rpms
+    held_before = copy.deepcopy(held)
+    must("load-older-format-into-used-object[rpms %s]" % version, used.loads, json.dumps(doc))
+    check(held == held_before, "earlier-result-changed-by-later-load", lambda: "rpms %s: the mapping obtained from an earlier load changed when the same object loaded another document: %s" % (
+        version, diff(held_before, held)))
+    d = diff(want, snap(used))
+    check(d is None, "upgrade-differs-from-description[rpms %s]" % version, lambda: "rpms %s loaded into a used object: %s" % (version, d))
     return {"nontrivial": True, "labels": ["v" + version]}
 
 
